@@ -170,7 +170,7 @@ func jobC04(c *rt.Ctx) {
 						}
 						var shapes []batchShape
 						if j == js[0] && mi == 0 {
-							shapes = []batchShape{{0, 4}, {3, 4}, {4, 5}, {5, 6}, {6, 7}}
+							shapes = []batchShape{{0, 1}, {1, 2}, {2, 3}, {0, 4}, {3, 4}, {4, 5}, {5, 6}, {6, 7}}
 							if ki == 0 || c.Thorough() {
 								shapes = append(shapes, batchShape{63, 65}, batchShape{64, 65}, batchShape{64, 130}, batchShape{67, 68}, batchShape{69, 70}, batchShape{129, 132})
 							}
